@@ -1,10 +1,10 @@
 (* C15 — cursor tracking keeps cursors on the same text and never alters the result. Statements only. *)
 From PasfmtVerif Require Import Model.Reconstruct Model.Cursor Proofs.ReconstructProofs Proofs.CursorProofs.
 
-(* offset_for_token is the byte offset of the token's content in the output, provided no safety-net
-   newline fired up to that token (excluded class F10) *)
+(* offset_for_token is the byte offset of the token's content in the output — unconditionally
+   since commit 65fa795 (F10 repaired: the safety-net line break is counted) *)
 Theorem C15_offset_for_token_correct :
-  forall rs toks i p, nth_error toks i = Some p -> net_free false (firstn (S i) toks) = true ->
+  forall rs toks i p, nth_error toks i = Some p ->
   exists pre post,
     recon rs false toks = pre ++ t_content (fst p) ++ post /\
     blen pre = offset_for_token rs toks i /\
@@ -67,14 +67,13 @@ Theorem C15_char_boundary_token :
             (k <= length (t_content (fst p)))%nat /\ is_char_boundary (t_content (fst p)) k = true.
 Proof. exact relocate_char_boundary. Qed.
 
-(* … and every relocated cursor is a character boundary of the output, when no safety-net newline
-   fired (class F10), no piece of the output starts with a UTF-8 continuation byte, the settings'
-   strings are ASCII and, in the verbatim whitespace of ignored tokens, no continuation byte
+(* … and every relocated cursor is a character boundary of the output, when no piece of the
+   output starts with a UTF-8 continuation byte, the settings' strings are ASCII and, in the verbatim whitespace of ignored tokens, no continuation byte
    directly follows an LF (after_lf_ok; both conditions on the text hold for valid UTF-8) *)
 Theorem C15_char_boundary :
   forall rs raw final c z, final <> [] ->
   (forall p, last_opt final = Some p -> t_content (fst p) = []) ->
-  net_free false final = true -> pieces_ok rs final -> rs_no_cont rs ->
+  pieces_ok rs final -> rs_no_cont rs ->
   Forall (fun p => f_ignored (snd p) = true -> after_lf_ok (t_ws (fst p))) final ->
   track_cursor rs raw final c = Some z ->
   is_char_boundary (recon rs false final) (Z.to_nat z) = true.
@@ -83,7 +82,7 @@ Proof. exact track_cursor_on_char_boundary. Qed.
 (* Content / MultilineContent cursors need no assumption on the whitespace *)
 Theorem C15_char_boundary_content :
   forall rs raw final c idx pos z,
-  net_free false final = true -> pieces_ok rs final ->
+  pieces_ok rs final ->
   process_cursor raw c = (idx, pos) -> (idx < length final)%nat ->
   match pos with PWhitespace _ _ => False | _ => True end ->
   track_cursor rs raw final c = Some z ->
@@ -96,7 +95,7 @@ Proof. exact track_cursor_on_char_boundary_content. Qed.
 Theorem C15_regression_verbatim_whitespace_mid_char :
   exists rs raw final c idx col nla z,
     input_boundary (raw_text raw) c /\ process_cursor raw c = (idx, PWhitespace col nla) /\
-    net_free false final = true /\ pieces_ok rs final /\ rs_no_cont rs /\
+    pieces_ok rs final /\ rs_no_cont rs /\
     Forall (fun p => f_ignored (snd p) = true -> after_lf_ok (t_ws (fst p))) final /\
     track_cursor rs raw final c = Some z /\ z = 5%Z /\
     is_char_boundary (recon rs false final) (Z.to_nat z) = true /\
@@ -107,7 +106,7 @@ Proof. exact whitespace_verbatim_mid_char_fixed_example. Qed.
 (* cursors beyond the end of the input map to the end of the output *)
 Theorem C15_past_end :
   forall rs raw final c p, raw_len raw < c -> (length final <= length raw)%nat ->
-  last_opt final = Some p -> t_content (fst p) = [] -> net_free false final = true ->
+  last_opt final = Some p -> t_content (fst p) = [] ->
   track_cursor rs raw final c = Some (Z.of_N (blen (recon rs false final))).
 Proof. exact track_cursor_past_end. Qed.
 
@@ -154,3 +153,13 @@ Theorem C15_regression_mid_char :
   is_char_boundary (recon f9_rs false f9_final) 6 = true /\
   is_char_boundary (recon f9_rs false f9_final) 7 = false.
 Proof. repeat split; apply cursor_mid_char_fixed_example. Qed.
+
+(* F10 regression: `a; // c` CR `// y` LF `b;` — the line break added after the first comment is
+   counted: cursors 3,8,9,14,15,16,100 -> 3,9,10,15,16,17,17 *)
+Theorem C15_regression_safety_net :
+  recon f10_rs false f10_final = [97;59;32;47;47;32;99;10;32;47;47;32;121;10;98;59;10] /\
+  net_free false f10_final = false /\
+  map (track_cursor_u32 f10_rs f10_raw f10_final) [3;8;9;14;15;16;100] = [3;9;10;15;16;17;17] /\
+  offset_for_token f10_rs f10_final 3 = 9 /\
+  track_cursor f10_rs f10_raw f10_final 100 = Some (Z.of_N (blen (recon f10_rs false f10_final))).
+Proof. exact cursor_safety_net_fixed_example. Qed.
